@@ -63,7 +63,7 @@ func fillerRule(k int) *dsl.Rule {
 func init() {
 	register(&Prop{
 		ID:   "C20",
-		Rule: "multi-rule, multi-line texts (1-5 rules, line breaks, comments and blank lines between any two tokens) with exactly one faulty construct from the fault catalogue (arithmetic type faults and zero divisors, comparison and logic type faults, failing calls of all three kinds, failing assignments; element-read, forRange, missing-name, non-boolean-condition faults) at a generated place (assignment right-hand side, if / else-if / for condition, for init and step, return, call argument, conc child) under 0-2 enclosing statements (if, else, else-if, for, forRange); in 30% of the cases the same rules were installed before from a text with another layout and line offset (full build or pool construction) and the text under test arrives as an incremental build / incremental pool update; oracle: every `line <n>` cited in the error returned for that rule is the 1-based start line of the faulty node or of one of its ancestors up to the enclosing statement; must-cite classes cite at least one. Non-trivial: the faulty construct is not on the first line of its rule and the rule is not the first, or the construct spans >= 2 lines; distinct by case hash",
+		Rule: "multi-rule, multi-line texts (1-5 rules, line breaks, comments and blank lines between any two tokens) with exactly one faulty construct from the fault catalogue (arithmetic type faults and zero divisors, comparison and logic type faults, failing calls of all three kinds, failing assignments; element-read, forRange, missing-name, non-boolean-condition faults) at a generated place (assignment right-hand side, if / else-if / for condition, for init and step, return, call argument, conc child) under 0-2 enclosing statements (if, else, else-if, for, forRange); in 30% of the cases the same rules were installed before from a text with another layout and line offset (full build or pool construction) and the text under test arrives as an incremental build / incremental pool update, optionally after a rejected incremental batch; oracle: every `line <n>` cited in the error returned for that rule is the 1-based start line of the faulty node or of one of its ancestors up to the enclosing statement; must-cite classes cite at least one. Non-trivial: the faulty construct is not on the first line of its rule and the rule is not the first, or the construct spans >= 2 lines; distinct by case hash",
 		New:  func() interface{} { return &C20Case{} },
 		Gen: func(t *rapid.T) interface{} {
 			c := &C20Case{Prog: genFaultProgram(t, nil)}
@@ -79,7 +79,7 @@ func init() {
 			}
 			c.Lead = []string{"", "", "\n", "\n\n\n", "  \n\t\n", "// header comment\n", "\r\n\r\n", " "}[uni(t, "lead", 0, 7)]
 			if pct(t, "recompile", 30) {
-				c.Recompile = uni(t, "recompile_kind", 1, 2)
+				c.Recompile = uni(t, "recompile_kind", 1, 3)
 			}
 			return c
 		},
@@ -113,8 +113,18 @@ func init() {
 				// an earlier version of the same text: other layout, three more lines in front
 				old, _ := dsl.PrintRulesLead(rules, nil, "// an earlier version\n// of the same rules\n\n")
 				x.Class("same-rules-compiled-before-at-another-line-offset")
-				if c.Recompile == 1 {
+				if c.Recompile == 1 || c.Recompile == 3 {
 					rb, err = buildDSL(old, faultInject(l))
+					if err == nil && c.Recompile == 3 {
+						// a rejected incremental batch in between: a complete new rule of high
+						// priority, then a broken one; it must leave nothing behind
+						x.Class("rejected-incremental-batch-before-the-text-under-test")
+						bad := "rule \"zz_new\" \"d\" salience 1000\nbegin\n  tr(900)\nend\nrule \"zz_broken\" \"d\" salience 1\nbegin\n  x = \nend\n"
+						if berr := rb.BuildRuleWithIncremental(bad); berr == nil {
+							x.Violation("bad-text-accepted", "an invalid incremental text was accepted:\n%s", bad)
+							return
+						}
+					}
 					if err == nil {
 						err = rb.BuildRuleWithIncremental(text)
 					}
